@@ -662,6 +662,17 @@ static J gen_c03 (uint64_t seed, uint64_t idx)
 		}
 		else if (q < 16 && wavfam && ch <= 8)
 		{	J e = J::obj () ; e ["kind"] = "wav_broken_fmt" ; e ["bits"] = (int) gx.rng.pick<int> ({ 24, 24, 24, 32, 16 }) ; e ["mult"] = (int) gx.rng.pick<int> ({ 4, 4, 4, 3, 8 }) ; extra.push (e) ; }
+		else if (q >= 24 && q < ((f.block_codec || (f.sub >= SF_FORMAT_ALAC_16 && f.sub <= SF_FORMAT_ALAC_32) || f.lossy) ? 84 : 40) && chunked)
+		{	// one or two fields of the chunks that describe the encoding set to a boundary value, the image otherwise intact
+			// (block codecs and ALAC: most of the plans - their init functions divide by and allocate from these fields)
+			for (int k = 0, n = (int) gx.rng.pick<int> ({ 1, 1, 1, 2 }) ; k < n ; k++)
+			{	J e = J::obj () ; e ["kind"] = "chunk_field" ; e ["fmt_field"] = 1 ; e ["chunk"] = (long long) gx.rng.below (64) ; e ["foff"] = (long long) gx.rng.below (240) ;
+				if (gx.rng.chance (0.7)) e ["primary"] = 1 ;
+				e ["width"] = (int) gx.rng.pick<int> ({ 2, 2, 4, 4 }) ; e ["swap"] = gx.rng.chance (0.05) ? 1 : 0 ;
+				e ["val"] = (long long) gx.rng.pick<int64_t> ({ 0, 0, 0, 0, 0, 0, 1, 2, 3, 7, 8, 16, 0x7f, 0x80, 0xff, 0x100, 0x7fff, 0x8000, 0xffff, 0x10000, 0x7fffffff, (int64_t) 0x80000000LL, 0xfffffff8LL, 0xffffffffLL }) ;
+				extra.push (e) ;
+			}
+		}
 		else if (q < 24 && wavfam)
 		{	// a LIST chunk of a kind this writer never produces (exif, adtl, INFO with unusual ids), before the audio or after it
 			J e = J::obj () ; e ["kind"] = "inject" ; e ["id"] = 3 ; e ["len"] = (long long) gx.rng.below (300) ; e ["fill"] = (int) gx.rng.below (2) ;
